@@ -13,12 +13,13 @@ import xarray
 
 from symx.core import And, Iff, Implies, Not, Or, same, ite, HarnessError
 from symx.runner import Case, main_run, replay_file
+from symx.snap import snapshot, unchanged
 from harness import depthcommon
 
 PROP = 'C13'
 
 
-def build(ctx, n, positive, with_bounds, dimcoord, data_pos, depth_mode):
+def build(ctx, n, positive, with_bounds, dimcoord, data_pos, depth_mode, second=False):
     """depth_mode: 'symbolic' (values symbolic, strictly monotonic) or a tuple of concrete values."""
     dim = 'zc' if dimcoord else 'k'
     if depth_mode == 'symbolic':
@@ -43,7 +44,11 @@ def build(ctx, n, positive, with_bounds, dimcoord, data_pos, depth_mode):
     temp = depthcommon.sym_values(ctx, 'v', shape, nan=True, base=1000.0)
     variables['temp'] = (dims, temp, {'units': 'degC'})
     variables['flat'] = (('t', 'x'), numpy.arange(4.0).reshape(2, 2))
-    ds = xarray.Dataset(variables, coords={'zc': ((dim,), d, attrs)}, attrs={'title': 'depth test'})
+    coords = {'zc': ((dim,), d, attrs)}
+    if second:
+        # a second coordinate for the same levels with the opposite sign convention (height above / depth below)
+        coords['zalt'] = ((dim,), -1 * d, {'positive': 'up' if positive.lower() == 'down' else 'down', 'long_name': 'alt'})
+    ds = xarray.Dataset(variables, coords=coords, attrs={'title': 'depth test'})
     ds['zc'].encoding['marker'] = 'keep-me'
     return ds, dim, d, b, temp, dims
 
@@ -56,10 +61,14 @@ def is_down(positive, d, ctx):
     return sum(1 for v in vals if v > 0) > len(vals) / 2
 
 
-def body(ctx, n, positive, with_bounds, dimcoord, data_pos, pd, d2s, depth_mode, via):
+def body(ctx, n, positive, with_bounds, dimcoord, data_pos, pd, d2s, depth_mode, via, second=False):
     from emsarray.operations import depth as depth_ops
-    ds, dim, d, b, temp, dims = build(ctx, n, positive, with_bounds, dimcoord, data_pos, depth_mode)
+    ds, dim, d, b, temp, dims = build(ctx, n, positive, with_bounds, dimcoord, data_pos, depth_mode, second)
+    names = ['zc', 'zalt'] if second else ['zc']
+    if second and n % 2:
+        names = names[::-1]
     before_attrs = dict(ds['zc'].attrs)
+    snap = snapshot(ds)
     before_vals = list(ds['zc'].values)
     ctx.note('config', dict(n=n, positive=positive, bounds=with_bounds, dimcoord=dimcoord, pd=pd, d2s=d2s))
 
@@ -69,7 +78,7 @@ def body(ctx, n, positive, with_bounds, dimcoord, data_pos, pd, d2s, depth_mode,
             if via == 'convention':
                 from emsarray.conventions.grid import CFGrid1D
                 raise HarnessError('convention alias is exercised in C12')
-            out = depth_ops.normalize_depth_variables(dataset, ['zc'], positive_down=pd, deep_to_shallow=d2s)
+            out = depth_ops.normalize_depth_variables(dataset, names, positive_down=pd, deep_to_shallow=d2s)
         return out, w
 
     out, warned = normalise(ds)
@@ -118,6 +127,17 @@ def body(ctx, n, positive, with_bounds, dimcoord, data_pos, pd, d2s, depth_mode,
                     o = temp[tuple(sel_old[q] for q in dims)]
                     oks_data.append(Implies(cond, same(a, o)))
     ctx.check(And(*oks_val), 'values carry the requested sign and every level keeps its physical depth')
+    if second:
+        za = out['zalt']
+        alt_down0 = not down0
+        alt_down1 = alt_down0 if pd is None else pd
+        oks = []
+        for k in range(n):
+            for cand, cond in ((k, Not(rev)), (n - 1 - k, rev)):
+                oks.append(Implies(cond, same(za.values[k], phys[cand] if alt_down1 else -phys[cand])))
+        ctx.check(And(*oks), 'second coordinate of the same levels: requested sign, every level keeps its physical depth')
+        ctx.check(za.attrs.get('positive') == (('down' if pd else 'up') if pd is not None else ds['zalt'].attrs['positive']),
+                  'second coordinate: positive attribute agrees with its values')
     if with_bounds:
         ctx.check(And(*oks_b), 'bounds are transformed with their level')
         ctx.check(out['zc_bnds'].dims == (dim, 'bnds'), 'bounds keep their dimensions')
@@ -136,6 +156,7 @@ def body(ctx, n, positive, with_bounds, dimcoord, data_pos, pd, d2s, depth_mode,
     # input not modified
     ctx.check(dict(ds['zc'].attrs) == before_attrs, 'input dataset attributes are not modified')
     ctx.check(And(*[same(a, c) for a, c in zip(ds['zc'].values, before_vals)]), 'input dataset values are not modified')
+    ctx.check(unchanged(ds, snap), 'the input dataset is not modified (every variable: values, attributes, encoding)')
 
     # idempotence
     out2, _ = normalise(out)
@@ -166,6 +187,14 @@ def cases(tier):
                 yield Case(f'sym:{positive}:pd{pd}:d2s{d2s}:b{int(with_bounds)}:n{n}:dc{int(dimcoord)}', body,
                            dict(n=n, positive=positive, with_bounds=with_bounds, dimcoord=dimcoord, data_pos=k % 3,
                                 pd=pd, d2s=d2s, depth_mode='symbolic', via='function'),
+                           patches=depthcommon.patches, max_paths=200)
+    # two depth coordinates along one dimension, normalised in one call
+    for positive in ('up', 'down'):
+        for (pd, d2s) in opts:
+            for n in ((2, 3) if not q else ((2,) if positive == 'up' else (3,))):
+                yield Case(f'sym2:{positive}:pd{pd}:d2s{d2s}:n{n}', body,
+                           dict(n=n, positive=positive, with_bounds=(n == 3), dimcoord=(pd is None), data_pos=n % 3,
+                                pd=pd, d2s=d2s, depth_mode='symbolic', via='function', second=True),
                            patches=depthcommon.patches, max_paths=200)
     # positive attribute missing: the sign is guessed from the values (concrete depth values, symbolic data)
     for vals in ((0.5, 1.5, 2.5), (-0.5, -1.5, -2.5), (4.0, 2.0, 0.5), (-4.0, -2.0)) if q else \
@@ -198,7 +227,7 @@ def run(tier, seed=0, replay=None, procs=None, only=None):
                      'are concrete sign patterns because the sign guess indexes with a comparison result)',
             symbolic='depth values (strictly monotonic Reals), bounds values, data values (Real + NaN flag)',
             layouts='depth as dimension coordinate or not; with/without bounds; depth dimension first/middle/last; second application',
-            outside='more than one depth coordinate per call; non-monotonic depth; more than 4 levels'),
+            outside='depth coordinates on different dimensions in one call (C12 covers those through ocean_floor); non-monotonic depth; more than 4 levels'),
         stubs=['xarray.core.duck_array_ops.pandas_isnull taught the NaN flag of symbolic reals (not reached by this function)'],
         assumptions=['xarray assign/assign_coords/isel move object-array elements as they move floats (witness replay per path)'],
     )
